@@ -49,14 +49,28 @@ def run_xform(binary, typ, xml, url, outdir, tag, env):
     return open(f, 'rb').read(), None
 
 
+def timeshift_lib():
+    """LD_PRELOAD shim that shifts the wall clock (harness/timeshift.c), built on demand next to the plain build's harness binaries"""
+    src = os.path.join(common.VERIF, 'harness', 'timeshift.c'); so = os.path.join(common.BUILD_ROOT, 'plain', 'hbin', 'timeshift.so')
+    if not os.path.exists(so) or os.path.getmtime(so) < os.path.getmtime(src):
+        os.makedirs(os.path.dirname(so), exist_ok=True)
+        p = subprocess.run(['gcc', '-shared', '-fPIC', '-O1', '-o', so, src, '-ldl'], capture_output=True, text=True)
+        if p.returncode != 0: raise common.Inconclusive('cannot build timeshift.so: ' + p.stderr[-500:])
+    return so
+
+
 def layouts(rng, n, tmpbase):
     out = []
+    shim = timeshift_lib()
     for i in range(n):
         env = {'PADDING': 'x' * rng.randint(0, 6000), 'MALLOC_ARENA_MAX': str(rng.choice([1, 2, 8])), 'MALLOC_TOP_PAD_': str(rng.choice([0, 4096, 1 << 20])),
                'MALLOC_PERTURB_': str(rng.randint(1, 255)), 'TMPDIR': os.path.join(tmpbase, 'tmp%d' % (i % 2))}
         if i == n - 1:
             # every allocation of 64 bytes or more comes from mmap: addresses of consecutive allocations then run downwards, the order of anything keyed by pointers flips
             env['MALLOC_MMAP_THRESHOLD_'] = '64'; env['MALLOC_TOP_PAD_'] = '0'
+        if i % 2 == 1:
+            # another day, another year: the run's date must not show in what is emitted
+            env['LD_PRELOAD'] = shim; env['VERIF_TIME_OFFSET'] = str(rng.choice([86400 * 3, 86400 * 400, -86400 * 40]))
         os.makedirs(env['TMPDIR'], exist_ok=True)
         out.append(env)
     return out
